@@ -63,6 +63,9 @@ func (d *DatasourceExecuting) Run(ctx ExecutionContext, produce ProduceFn, metaS
 		for i, columnIndex := range indicesToRead {
 			str := row[columnIndex]
 			if str == "" {
+				if octosql.Null.Is(d.fields[i].Type) != octosql.TypeRelationIs {
+					return fmt.Errorf("empty value in column '%s' of type %s (the schema is inferred from the first 100 rows)", d.fields[i].Name, d.fields[i].Type)
+				}
 				values[i] = octosql.NewNull()
 				continue
 			}
@@ -99,6 +102,9 @@ func (d *DatasourceExecuting) Run(ctx ExecutionContext, produce ProduceFn, metaS
 				}
 			}
 
+			if octosql.String.Is(d.fields[i].Type) != octosql.TypeRelationIs {
+				return fmt.Errorf("value '%s' in column '%s' doesn't fit its inferred type %s (the schema is inferred from the first 100 rows)", str, d.fields[i].Name, d.fields[i].Type)
+			}
 			values[i] = octosql.NewString(str)
 		}
 
